@@ -4,10 +4,10 @@ wt="$1"
 cd "$wt" || exit 2
 git diff --quiet -- src && { echo "no change applied in $wt"; exit 2; }
 PYTHONPATH=$wt/src timeout 300 /venv/bin/python _seeded/demo.py > /tmp/sv_with.txt 2>&1; with=$?
-git stash -q
+git diff -- src > /tmp/sv_patch.diff; git apply -R /tmp/sv_patch.diff
 PYTHONPATH=$wt/src timeout 300 /venv/bin/python _seeded/demo.py > /tmp/sv_without.txt 2>&1; without=$?
-git stash pop -q
-PYTHONPATH=$wt/src timeout 900 /venv/bin/python -m pytest -q -p no:cacheprovider --timeout=900 --continue-on-collection-errors -q tests > /tmp/sv_tests.txt 2>&1
+git apply /tmp/sv_patch.diff
+PYTHONPATH=$wt/src timeout 900 /venv/bin/python -m pytest -q -p no:cacheprovider --timeout=900 --continue-on-collection-errors tests > /tmp/sv_tests.txt 2>&1
 echo "$wt demo_with_change_exit=$with demo_without_exit=$without tests: $(grep -E "passed|failed" /tmp/sv_tests.txt | tail -1)"
 git diff --stat -- src | tail -1
 diff <(git diff -- src) _seeded/patch.diff > /dev/null && echo "patch.diff matches worktree diff" || echo "patch.diff differs from worktree diff (regenerating)"
